@@ -57,6 +57,10 @@ pub struct Workload {
     /// manual mode only: probability that the oldest immutable memtable is flushed at the yield
     /// point after a commit was published
     pub hook_flush_pct: u64,
+    /// single committer only: a transaction begun before a commit that then fails (not with a
+    /// conflict) becomes the next transaction and also writes one of the failed one's keys; no
+    /// commit succeeded in between, so it must not be refused with a write conflict
+    pub stale_writer_after_failure: bool,
 }
 
 impl Workload {
@@ -64,7 +68,8 @@ impl Workload {
         json!({"txns": self.txns, "committers": self.committers, "nkeys": self.nkeys, "max_value": self.max_value,
                "immediate_pct": self.immediate_pct, "sync_every": self.sync_every, "close_at_end": self.close_at_end,
                "delete_pct": self.delete_pct, "first_txn": self.first_txn, "big_batch_pct": self.big_batch_pct,
-               "manual_flush_every": self.manual_flush_every, "hook_rotate_pct": self.hook_rotate_pct, "hook_flush_pct": self.hook_flush_pct})
+               "manual_flush_every": self.manual_flush_every, "hook_rotate_pct": self.hook_rotate_pct, "hook_flush_pct": self.hook_flush_pct,
+               "stale_writer_after_failure": self.stale_writer_after_failure})
     }
     pub fn from_json(j: &J) -> Workload {
         let u = |k: &str| j[k].as_u64().unwrap_or(0);
@@ -82,6 +87,7 @@ impl Workload {
             manual_flush_every: u("manual_flush_every") as usize,
             hook_rotate_pct: u("hook_rotate_pct"),
             hook_flush_pct: u("hook_flush_pct"),
+            stale_writer_after_failure: j["stale_writer_after_failure"].as_bool().unwrap_or(false),
         }
     }
 }
@@ -262,16 +268,33 @@ pub fn worker_main(args: &[String]) -> i32 {
             handles.push(tokio::spawn(async move {
                 let mut r = Rng::new(seed ^ (c as u64 + 1).wrapping_mul(0x51ED_270B));
                 let mut recs = vec![];
+                let stale_probe = w.stale_writer_after_failure && w.committers == 1;
+                // (transaction begun before the previous commit, a data key of that commit) when
+                // that commit failed
+                let mut stale: Option<(surrealkv::Transaction, Vec<u8>)> = None;
                 for i in 0..per {
                     let id = w.first_txn + (c * per + i) as u64;
-                    let (ops, immediate) = gen_txn(&mut r, &w, &cfg, id, seed);
-                    let mut t = match tree.begin_with_mode(if r.chance(1, 3) { Mode::WriteOnly } else { Mode::ReadWrite }) {
+                    let (mut ops, immediate) = gen_txn(&mut r, &w, &cfg, id, seed);
+                    let mode = if r.chance(1, 3) { Mode::WriteOnly } else { Mode::ReadWrite };
+                    let mut stale_key = None;
+                    let begun = match stale.take() {
+                        Some((t, k)) => {
+                            if !ops.iter().any(|o| o.1 == k) {
+                                ops.push((Kind::Set, k.clone(), crate::model::mk_value(seed, id, 99, 14)));
+                            }
+                            stale_key = Some(k);
+                            Ok(t)
+                        }
+                        None => tree.begin_with_mode(mode),
+                    };
+                    let mut t = match begun {
                         Ok(t) => t,
                         Err(e) => {
                             recs.push(TxnRec { id, ops, immediate, ok: false, err: format!("begin: {e}"), first_seq: 0 });
                             continue;
                         }
                     };
+                    let spare = if stale_probe { tree.begin_with_mode(Mode::ReadWrite).ok() } else { None };
                     if immediate {
                         t.set_durability(Durability::Immediate);
                     }
@@ -289,6 +312,17 @@ pub fn worker_main(args: &[String]) -> i32 {
                     }
                     drop(t);
                     let mut err_text = res.as_ref().err().map(|e| e.to_string()).unwrap_or_default();
+                    if let (Some(k), Err(surrealkv::Error::TransactionWriteConflict)) = (&stale_key, &res) {
+                        // begun before a commit that failed, nothing committed since
+                        err_text.push_str(&format!(" [SPURIOUS-CONFLICT on {}]", String::from_utf8_lossy(k)));
+                    }
+                    if let (Some(sp), Err(e)) = (spare, &res) {
+                        if !matches!(e, surrealkv::Error::TransactionWriteConflict | surrealkv::Error::TransactionRetry) {
+                            if let Some(o) = ops.iter().find(|o| !o.1.starts_with(MARK_PREFIX)) {
+                                stale = Some((sp, o.1.clone()));
+                            }
+                        }
+                    }
                     if res.is_err() {
                         // C15: a fresh reader right after the failed commit must not see its marker key
                         if let Ok(rd) = tree.begin_with_mode(Mode::ReadOnly) {
@@ -915,6 +949,10 @@ pub async fn verify_image(ctx: &VerifyCtx<'_>, img: &Path, plan: &ImagePlan, idx
                 Err(e) => res.problems.push(("open".into(), format!("second open after recovery + commit failed: {e}"))),
                 Ok(t2) => {
                     if let Some(p) = check(&t2, "after another reopen") {
+                        // acknowledged (immediate durability) in the session after the crash,
+                        // gone after a clean close + reopen: also a durability failure (C02,
+                        // "commits made in any later session")
+                        res.problems.push(("later_session".into(), format!("commit acknowledged with immediate durability in the session after recovery: {p}")));
                         res.problems.push(("probe".into(), p));
                     }
                     // everything else unchanged
